@@ -80,7 +80,8 @@ fn check_forest(levels: &[u16], vis: &dyn Fn(usize) -> bool, sample_only: bool, 
         if i > 0 && levels[i] < levels[i - 1] && levels[i] > 0 {
             sibling_after_nested = true;
         }
-        i += step;
+        // a sampled walk always ends on the last two layers (the deepest of a chain)
+        i = if step > 1 && i + step >= n && i + 2 < n { n - 2 } else if step > 1 && i == n - 2 { n - 1 } else { i + step };
     }
     if n <= 4096 {
         let img = f.frame(0).image();
@@ -325,7 +326,7 @@ pub fn run(run: &mut Run) {
     }
     run.extra.insert("exhaustive_cases".into(), json!(cases.len()));
     // deep chains
-    for depth in if run.thorough() { vec![1000usize, 32767, 32768, 32769, 40000, 65535] } else { vec![1000usize, 32769, 65535] } {
+    for depth in if run.thorough() { vec![1000usize, 32767, 32768, 32769, 40000, 65535, 65536] } else { vec![1000usize, 32769, 65535, 65536] } {
         let levels: Vec<u16> = (0..depth).map(|i| i as u16).collect();
         for hide in [usize::MAX, 0, 1, depth / 2, depth - 2, depth - 1] {
             let r = check_guarded(|| {
